@@ -88,4 +88,13 @@ REG = {
         'and closure to equal Stream!Obs of the stream for every chunking.',
    note='Covers TCP framing (TLS uses the same reader above the TLS layer). WebSocket handshake/frame segmentation is NOT covered by this check yet (DESIGN.md); '
         'declared sizes within 100 bytes of the configured maximum and TKL 15 inside a stream are not generated.'),
+ 'C15': dict(module='replay', engine='replay', category='model_checking', design_ref='4/C15',
+   technique='TLA+ spec Replay (sliding window + sender sequence persistence, TLC invariants) + TLC judging histories run against the real OSCORE recipient/sender',
+   text='Replay.tla model-checks accepted-at-most-once, forgeries-change-nothing, genuine-higher-numbers-accepted and no-partial-IV-reuse across crash/restart for all '
+        'bounded histories. The real libcoap OSCORE server and client run on the simulator; every protected request is captured so that byte-identical replays and '
+        'forgeries (claimed partial IV rewritten, ciphertext bit flipped) can be injected. Histories with gaps {1,2,31,32,33,63,64,65,1000}, replays at every distance '
+        'around the window edges, older in-window messages, forged numbers below/at/above/far above the window, client restarts from the saved sequence number at every '
+        'point (ssn_freq 1/2/3/10), Appendix B.1.2 on and off, and random histories are executed; TLC judges each step (handler ran or not) and every partial IV on the wire.',
+   note='Acceptance is observed at the application handler of a full server context. An older, never accepted in-window request may get either verdict. '
+        'UBSan reports inside the replay window code (shift >= 64) count as violations of this property.'),
 }
